@@ -8,8 +8,8 @@ PROPS = {
     'C04': dict(units=['U3'], kani=[], level='proof',
                 scope='the commit fold: new-segment contents == last add per id, untouched live copies kept, touched ids lose their old copy, exactly those old copies tombstoned; load_live_docs maps each id to its last live slot',
                 outside='segment writer storing documents in pending_new order (BTreeMap keys()/values() order agreement assumed), tombstone merge into the manifest (HashSet/sort code), stored projection, reader-side deletion filtering, several writer handles / generation reload, rollback, compaction'),
-    'C07': dict(units=['U10'], kani=[], level='proof',
-                scope='boolean evaluation: the whole recursive matches_node equals the documented bool/dis_max/query_string semantics (should optional beside must/filter unless minimum_should_match), for every query tree and every truth assignment of the leaves',
+    'C07': dict(units=['U10', 'U11'], kani=[], level='proof',
+                scope='boolean evaluation: the whole recursive matches_node equals the documented bool/dis_max/query_string semantics (should optional beside must/filter unless minimum_should_match), for every query tree and every truth assignment of the leaves; phrase/slop position search == the slop-chain definition',
                 outside='analysis, dictionary expansion (prefix/wildcard/regex/fuzzy), candidate generation, the planner translating the JSON tree into the matcher, filters (C08)'),
 }
 
